@@ -309,7 +309,8 @@ __CPROVER_ensures(self->t->along_step_action == action)
 ;
 /* reset_energy_deposition()   [enforced: c01_psv_reset] */
 void PSV_reset_energy_deposition(PhysicsStepView* self) __CPROVER_requires(VIEW_OK(self)) __CPROVER_assigns(self->t->energy_deposition) __CPROVER_ensures(self->t->energy_deposition == 0);
-void PSV_secondaries_clear(PhysicsStepView* self) __CPROVER_requires(VIEW_OK(self)) __CPROVER_assigns() __CPROVER_ensures(1);   /* outside this model */
+bool g_sec_cleared;          /* ghost: the slot's secondaries span was reset to empty */
+void PSV_secondaries_clear(PhysicsStepView* self) __CPROVER_requires(VIEW_OK(self)) __CPROVER_assigns(g_sec_cleared) __CPROVER_ensures(g_sec_cleared == 1);   /* step.secondaries({}) */
 void PSV_element_clear(PhysicsStepView* self) __CPROVER_requires(VIEW_OK(self)) __CPROVER_assigns() __CPROVER_ensures(1);       /* outside this model */
 static bool PHV_has_interaction_mfp(PhysicsTrackView const* self) { return self->t->interaction_mfp > 0; }   /* body: state().interaction_mfp > 0 */
 /* interaction_mfp(mfp): own EXPECT mfp > 0 */
@@ -364,8 +365,8 @@ def build_pre_step(ctx):
     return (VHDR + PRE_STUBS + """
 #define T0(f) __CPROVER_old(track->t->f)
 void PRE_call(CoreTrackView const* track)
-__CPROVER_requires(VIEW_OK(track) && track->t->status >= 0 && track->t->status < 5 && track->t->status != TS_killed && !__CPROVER_isnand(track->t->interaction_mfp) && g_cleared == 0 && g_draws == 0)
-__CPROVER_assigns(g_cleared, g_draws, g_limit, track->t->status, track->t->step_length, track->t->post_step_action, track->t->along_step_action, track->t->energy_deposition, track->t->interaction_mfp, track->t->macro_xs, track->t->dedx_range)
+__CPROVER_requires(VIEW_OK(track) && track->t->status >= 0 && track->t->status < 5 && track->t->status != TS_killed && !__CPROVER_isnand(track->t->interaction_mfp) && g_cleared == 0 && g_draws == 0 && !g_sec_cleared)
+__CPROVER_assigns(g_cleared, g_draws, g_limit, g_sec_cleared, track->t->status, track->t->step_length, track->t->post_step_action, track->t->along_step_action, track->t->energy_deposition, track->t->interaction_mfp, track->t->macro_xs, track->t->dedx_range)
 /* the shared secondary storage is cleared exactly once per step, by thread 0 only */
 __CPROVER_ensures(g_cleared == (g_thread_id == 0 ? 1 : 0))
 /* an empty slot stays empty and carries no limit and no actions; nothing is sampled for it */
@@ -373,8 +374,9 @@ __CPROVER_ensures(T0(status) == TS_inactive ==> (track->t->status == TS_inactive
 /* status only moves forward: initializing/alive -> alive, errored stays errored */
 __CPROVER_ensures((T0(status) == TS_initializing || T0(status) == TS_alive) ==> track->t->status == TS_alive)
 __CPROVER_ensures(T0(status) == TS_errored ==> (track->t->status == TS_errored && g_draws == 0 && (__CPROVER_isnand(T0(step_length)) || track->t->step_length == T0(step_length))))
-/* every occupied slot starts its step with a zero local deposit */
-__CPROVER_ensures(T0(status) != TS_inactive ==> track->t->energy_deposition == 0)
+/* every occupied slot -- also one that failed to initialise -- starts its step with a zero local deposit and an EMPTY secondaries span
+   (a stale span would be turned into tracks a second time by the track-initialisation kernels) */
+__CPROVER_ensures(T0(status) != TS_inactive ==> (track->t->energy_deposition == 0 && g_sec_cleared))
 /* a live track: an MFP is sampled only when none is left (and is then positive); the step limit for this step is exactly the physics limit */
 __CPROVER_ensures(track->t->status == TS_alive ==> (track->t->interaction_mfp > 0 && (T0(interaction_mfp) > 0 ? (g_draws == 0 && track->t->interaction_mfp == T0(interaction_mfp)) : g_draws == 1)))
 __CPROVER_ensures(track->t->status == TS_alive ==> (track->t->step_length == g_limit.step && track->t->post_step_action == g_limit.action && track->t->step_length >= 0))
